@@ -22,8 +22,15 @@ import (
 	"golang.org/x/tools/go/ssa/ssautil"
 )
 
-const verifDir = "/verif"
-const harnessDir = "/verif/harness"
+// verifDir is where checks.json, known_findings.json, harness/, evidence/ live:
+// $GOSYM_VERIF (set by ./check to its own directory) or /verif.
+var verifDir = func() string {
+	if d := os.Getenv("GOSYM_VERIF"); d != "" {
+		return d
+	}
+	return "/verif"
+}()
+var harnessDir = filepath.Join(verifDir, "harness")
 
 // HarnessSpec is one entry of checks.json.
 type HarnessSpec struct {
